@@ -343,7 +343,13 @@ static void ctl_cb(int kind, const char * id, const void * obj, long val) {
   }
   if (kind == MYTH_VERIF_KIND_SPIN) {
     step_no--;
-    if (soft_spin(id)) maybe_switch(w); else spin_switch(w);
+    if (soft_spin(id)) {
+      /* while a participant is parked by `hold`, a polling iteration of somebody else counts as a real move:
+         otherwise a runner held at once.done is never released when everybody else only polls (the pollers
+         stay enabled, so the early-release rule of choose_other does not apply) */
+      for (int q = 0; q < n_workers; q++) if (q != w && heldflag[q]) { moves++; break; }
+      maybe_switch(w);
+    } else spin_switch(w);
     step_no++;
     fprintf(tr, "S %ld w%d %s %s ", step_no, w, aname(w, b), id);
     pr_objref(id, obj); fprintf(tr, "\n");
